@@ -154,6 +154,9 @@ _MODEL = {
 }
 
 
+_UPD_PARS_VALIDATION = "self._check_known_names(parameters, self._parameters, ctx='parameters', unique=False)\n"
+
+
 def _same(a: str, b: str) -> bool:
     try:
         return ast.unparse(ast.parse(a)) == ast.unparse(ast.parse(b))
@@ -216,7 +219,12 @@ def extract_facts() -> dict[str, str]:
     ok = True
     for name, shape in _MODEL.items():
         f = _find(mcls.body, name)
-        ok = ok and f is not None and _same(_body_src(f), shape)
+        src = _body_src(f) if f is not None else ""
+        if name == "update_parameters" and src.startswith(_UPD_PARS_VALIDATION):
+            # since 037a1c8 the batch form validates all names first (C03's business); a Simulation only
+            # re-applies the names of its own segment, which exist, so the prefix is a no-op here
+            src = src[len(_UPD_PARS_VALIDATION):]
+        ok = ok and f is not None and _same(src, shape)
     up = _find(mcls.body, "update_parameter")
     ok = ok and up is not None and _decorators(up) == ["_invalidate_cache"]
     inv = _find(mod.body, "_invalidate_cache")
